@@ -7,6 +7,8 @@
 (* the code has:                                                           *)
 (*   Parser          buf   (Parser._comments, filled by lexer callbacks)   *)
 (*                   cdict (Parser.comments_dict, line -> comment)         *)
+(*                   icache (texts of INCLUDE files kept by the parser:    *)
+(*                          empty in the code as written, IncCache="none") *)
 (*   MapfileToDict   mt    (MapfileToDict.mapfile_transformer)             *)
 (*   Validator       raw   (Validator.schemas)                             *)
 (*                   exp   (Validator.expanded_schemas: key -> schema      *)
@@ -39,17 +41,20 @@ CONSTANTS
     KeyByVersion,   \* TRUE: expanded-schema cache keyed by (name, version)      (as written)
     LowerOnCopy,    \* TRUE: validation lower-cases a copy of the dictionary    (as written)
     FindInserts,    \* FALSE: find/findall only read the items              (as documented)
+    IncCache,       \* "none": every INCLUDE is read from the resolved path       (as written)
+                    \* "by_name": the parser keeps include texts under the name as written
+    FormatOnCopy,   \* TRUE: the printer builds new values, never edits list items (as written)
     Record          \* TRUE: keep the call history and the schedule for emission
 
 VARIABLES
     pc, cur, ncalls,            \* per thread: program counter, running call, calls started
-    buf, cdict, mt,             \* Parser / MapfileToDict fields, per object
+    buf, cdict, mt, icache,     \* Parser / MapfileToDict fields, per object (icache: include texts)
     raw, exp, sobj,             \* Validator fields per object; schema objects (pruned entries)
     args,                       \* the dictionaries the callers hold (the arguments)
     fin, hist, sched,           \* call just completed per thread; history and schedule (when Record)
     running, sid                \* scheduler: thread inside a segment; script id
 
-vars == <<pc, cur, ncalls, buf, cdict, mt, raw, exp, sobj, args, fin, hist, sched, running, sid>>
+vars == <<pc, cur, ncalls, buf, cdict, mt, icache, raw, exp, sobj, args, fin, hist, sched, running, sid>>
 
 -----------------------------------------------------------------------------
 (* Documents                                                               *)
@@ -58,13 +63,18 @@ vars == <<pc, cur, ncalls, buf, cdict, mt, raw, exp, sobj, args, fin, hist, sche
 \* com  : steps at which a comment is lexed (line = step number)
 \* faults : schema faults present at every version;  entries : version-ranged keywords used
 \* some : the object list searched by find* has items lacking the key "some"
+\* inc  : 0 = no INCLUDE; n = the document holds  INCLUDE "<name n>"  (a relative name, resolved
+\*        against the folder of the document);  dir : the folder the document lives in
 DocTable ==
-    <<[ntok |-> 3, fail |-> 0, com |-> {1, 3}, faults |-> {},     entries |-> {},             some |-> TRUE],
-      [ntok |-> 2, fail |-> 0, com |-> {},     faults |-> {"f1"}, entries |-> {},             some |-> FALSE],
-      [ntok |-> 3, fail |-> 2, com |-> {1},    faults |-> {},     entries |-> {},             some |-> FALSE],
-      [ntok |-> 3, fail |-> 0, com |-> {2},    faults |-> {},     entries |-> {"old"},        some |-> TRUE],
-      [ntok |-> 2, fail |-> 0, com |-> {1, 2}, faults |-> {"f1"}, entries |-> {"old", "anc"}, some |-> FALSE],
-      [ntok |-> 3, fail |-> 3, com |-> {},     faults |-> {},     entries |-> {},             some |-> FALSE]>>
+    <<[ntok |-> 3, fail |-> 0, com |-> {1, 3}, faults |-> {},     entries |-> {},             some |-> TRUE,  inc |-> 0, dir |-> 1],
+      [ntok |-> 2, fail |-> 0, com |-> {},     faults |-> {"f1"}, entries |-> {},             some |-> FALSE, inc |-> 0, dir |-> 2],
+      [ntok |-> 3, fail |-> 2, com |-> {1},    faults |-> {},     entries |-> {},             some |-> FALSE, inc |-> 0, dir |-> 3],
+      [ntok |-> 3, fail |-> 0, com |-> {2},    faults |-> {},     entries |-> {"old"},        some |-> TRUE,  inc |-> 0, dir |-> 1],
+      [ntok |-> 2, fail |-> 0, com |-> {1, 2}, faults |-> {"f1"}, entries |-> {"old", "anc"}, some |-> FALSE, inc |-> 0, dir |-> 2],
+      [ntok |-> 3, fail |-> 3, com |-> {},     faults |-> {},     entries |-> {},             some |-> FALSE, inc |-> 0, dir |-> 3],
+      \* two documents in different folders, both with INCLUDE "<name 1>"; the files differ
+      [ntok |-> 3, fail |-> 0, com |-> {1},    faults |-> {},     entries |-> {},             some |-> FALSE, inc |-> 1, dir |-> 1],
+      [ntok |-> 3, fail |-> 0, com |-> {3},    faults |-> {},     entries |-> {},             some |-> FALSE, inc |-> 1, dir |-> 2]>>
 
 AllDocs   == 1..Len(DocTable)
 DictDocs  == {d \in AllDocs : DocTable[d].fail = 0}      \* documents that exist as dictionaries
@@ -72,6 +82,10 @@ Versions  == {0, 76, 80}                                 \* 0 = no version given
 Entries   == {"old", "anc"}                              \* "old": maxVersion 7.6, "anc": maxVersion 5.0
 InRange(e, v) == IF e = "old" THEN v <= 76 ELSE v <= 50
 FindKeys  == {"all", "some"}                             \* key every item has / key some items lack
+
+\* the file system: what the file <name> in folder <dir> holds
+Content(dir, name) == [dir |-> dir, name |-> name]
+NoInc              == [dir |-> 0, name |-> 0]
 
 Comment(d, k)   == [doc |-> d, line |-> k]
 CommentsOf(d)   == {Comment(d, k) : k \in DocTable[d].com}
@@ -96,9 +110,9 @@ PVOf(t) == IF SharedV THEN 50 ELSE 50 + t                            \* PrettyPr
 NoT    == [by |-> 0, com |-> FALSE]
 NoRet  == [k |-> "none"]
 Err    == [k |-> "error"]
-Heap0  == [order |-> "orig", extra |-> {}, lower |-> FALSE, vcom |-> FALSE]
+Heap0  == [order |-> "orig", extra |-> {}, lower |-> FALSE, vcom |-> FALSE, quoted |-> FALSE]
 NoCall == [kind |-> "none", doc |-> 0, com |-> FALSE, ver |-> 0, key |-> "all", seams |-> {}, n |-> 0,
-           snap |-> Heap0, att |-> {}, sch |-> 0, hit |-> FALSE, keys |-> {}, ret |-> NoRet]
+           snap |-> Heap0, att |-> {}, incl |-> NoInc, sch |-> 0, hit |-> FALSE, keys |-> {}, ret |-> NoRet]
 
 -----------------------------------------------------------------------------
 (* F: what a call must return, as a function of its arguments only         *)
@@ -106,10 +120,13 @@ NoCall == [kind |-> "none", doc |-> 0, com |-> FALSE, ver |-> 0, key |-> "all", 
 F(c) ==
     CASE c.kind = "loads" ->
             IF DocTable[c.doc].fail # 0 THEN Err
-            ELSE [k |-> "dict", doc |-> c.doc, comments |-> IF c.com THEN CommentsOf(c.doc) ELSE {}]
+            ELSE [k |-> "dict", doc |-> c.doc, comments |-> IF c.com THEN CommentsOf(c.doc) ELSE {},
+                  inc |-> IF DocTable[c.doc].inc = 0 THEN NoInc
+                          ELSE Content(DocTable[c.doc].dir, DocTable[c.doc].inc)]
       [] c.kind \in {"dumps", "dumps_sep"} ->
             [k |-> "text", doc |-> c.doc, order |-> IF c.kind = "dumps_sep" THEN "sep" ELSE c.snap.order,
-             extra |-> c.snap.extra, lower |-> c.snap.lower, vcom |-> c.snap.vcom, removed |-> {}]
+             extra |-> c.snap.extra, lower |-> c.snap.lower, vcom |-> c.snap.vcom, quoted |-> c.snap.quoted,
+             removed |-> {}]
       [] c.kind \in {"validate", "validate_addc"} ->
             [k |-> "msgs", doc |-> c.doc,
              errs |-> DocTable[c.doc].faults \cup
@@ -191,25 +208,46 @@ Start(t) ==
                                  !.snap = IF m.kind \in DictKinds THEN args[m.doc] ELSE Heap0]
          IN  Step(t, FirstPc(m.kind), c)
     /\ ncalls' = [ncalls EXCEPT ![t] = @ + 1]
-    /\ UNCHANGED <<buf, cdict, mt, raw, exp, sobj, args, sid>>
+    /\ UNCHANGED <<buf, cdict, mt, icache, raw, exp, sobj, args, sid>>
 
 -----------------------------------------------------------------------------
 (* loads = Parser(...).parse(text) ; MapfileToDict(...).transform(tree)    *)
 
 LAlloc(t) ==                       \* Parser(), MapfileToDict(): new objects unless shared
     /\ pc[t] = "alloc" /\ cur[t].kind = "loads"
-    /\ IF SharedP THEN UNCHANGED <<buf, cdict, mt>>
+    /\ IF SharedP THEN UNCHANGED <<buf, cdict, mt, icache>>
        ELSE /\ buf' = [buf EXCEPT ![t] = <<>>]
             /\ cdict' = [cdict EXCEPT ![t] = {}]
             /\ mt' = [mt EXCEPT ![t] = NoT]
-    /\ Step(t, "clear", cur[t])
+            /\ icache' = [icache EXCEPT ![t] = {}]
+    /\ Step(t, "incl", cur[t])
     /\ UNCHANGED <<ncalls, raw, exp, sobj, args, sid>>
+
+\* text = self.load_includes(text, fn): every INCLUDE line is replaced by the text of the file its
+\* name resolves to, relative to the folder of the document
+LIncl(t) ==
+    /\ pc[t] = "incl"
+    /\ LET c == cur[t]
+           d == DocTable[c.doc]
+           p == POf(t)
+           kept == {e \in icache[p] : e.name = d.inc}
+       IN  IF d.inc = 0
+           THEN /\ Step(t, "clear", c)
+                /\ UNCHANGED icache
+           ELSE IF IncCache = "by_name" /\ kept # {}
+           THEN /\ Step(t, "clear", [c EXCEPT !.incl = (CHOOSE e \in kept : TRUE).content])
+                /\ UNCHANGED icache
+           ELSE /\ Step(t, "clear", [c EXCEPT !.incl = Content(d.dir, d.inc)])
+                /\ icache' = IF IncCache = "by_name"
+                             THEN [icache EXCEPT ![p] = @ \cup {[name |-> d.inc, content |-> Content(d.dir, d.inc)]}]
+                             ELSE icache
+    /\ UNCHANGED <<ncalls, buf, cdict, mt, raw, exp, sobj, args, sid>>
 
 LClear(t) ==                       \* self._comments[:] = []
     /\ pc[t] = "clear"
     /\ buf' = IF ClearsBuf THEN [buf EXCEPT ![POf(t)] = <<>>] ELSE buf
     /\ Step(t, "lex1", cur[t])
-    /\ UNCHANGED <<ncalls, cdict, mt, raw, exp, sobj, args, sid>>
+    /\ UNCHANGED <<ncalls, cdict, mt, icache, raw, exp, sobj, args, sid>>
 
 LLex(t, k) ==                      \* one token; the lexer callback appends a comment to the buffer
     /\ pc[t] = LexPc(k)
@@ -220,7 +258,7 @@ LLex(t, k) ==                      \* one token; the lexer callback appends a co
            /\ IF d.fail = k
               THEN Step(t, "ret", [c EXCEPT !.ret = Err])          \* parse error: buffer left as it is
               ELSE Step(t, IF k < d.ntok THEN LexPc(k + 1) ELSE IF c.com THEN "cdict" ELSE "tnew", c)
-    /\ UNCHANGED <<ncalls, cdict, mt, raw, exp, sobj, args, sid>>
+    /\ UNCHANGED <<ncalls, cdict, mt, icache, raw, exp, sobj, args, sid>>
 
 \* comments_dict[c.line] = c.value for c in _comments: a later comment on a line replaces an earlier
 LastPerLine(b) == {b[i] : i \in {j \in 1..Len(b) : \A h \in (j + 1)..Len(b) : b[h].line # b[j].line}}
@@ -229,27 +267,28 @@ LCdict(t) ==
     /\ pc[t] = "cdict"
     /\ cdict' = [cdict EXCEPT ![POf(t)] = LastPerLine(buf[POf(t)])]
     /\ Step(t, "assign", cur[t])
-    /\ UNCHANGED <<ncalls, buf, mt, raw, exp, sobj, args, sid>>
+    /\ UNCHANGED <<ncalls, buf, mt, icache, raw, exp, sobj, args, sid>>
 
 LAssign(t) ==                      \* _assign_comments pops every comment up to the last node's line
     /\ pc[t] = "assign"
     /\ LET take == {x \in cdict[POf(t)] : x.line <= DocTable[cur[t].doc].ntok}
        IN  /\ cdict' = [cdict EXCEPT ![POf(t)] = @ \ take]
            /\ Step(t, "tnew", [cur[t] EXCEPT !.att = take])
-    /\ UNCHANGED <<ncalls, buf, mt, raw, exp, sobj, args, sid>>
+    /\ UNCHANGED <<ncalls, buf, mt, icache, raw, exp, sobj, args, sid>>
 
 LTnew(t) ==                        \* self.mapfile_transformer = transformer_class(...)
     /\ pc[t] = "tnew"
     /\ mt' = [mt EXCEPT ![POf(t)] = [by |-> t, com |-> cur[t].com]]
     /\ Step(t, "trun", cur[t])
-    /\ UNCHANGED <<ncalls, buf, cdict, raw, exp, sobj, args, sid>>
+    /\ UNCHANGED <<ncalls, buf, cdict, icache, raw, exp, sobj, args, sid>>
 
 LTrun(t) ==                        \* return self.mapfile_transformer.transform(tree)
     /\ pc[t] = "trun"
     /\ LET c == cur[t]
        IN  Step(t, "ret", [c EXCEPT !.ret = [k |-> "dict", doc |-> c.doc,
-                                             comments |-> IF mt[POf(t)].com THEN c.att ELSE {}]])
-    /\ UNCHANGED <<ncalls, buf, cdict, mt, raw, exp, sobj, args, sid>>
+                                             comments |-> IF mt[POf(t)].com THEN c.att ELSE {},
+                                             inc |-> c.incl]])
+    /\ UNCHANGED <<ncalls, buf, cdict, mt, icache, raw, exp, sobj, args, sid>>
 
 -----------------------------------------------------------------------------
 (* dumps = PrettyPrinter(...).pprint(d)                                    *)
@@ -263,7 +302,7 @@ DAlloc(t) ==
        ELSE /\ raw' = [raw EXCEPT ![PVOf(t)] = {}]
             /\ exp' = [exp EXCEPT ![PVOf(t)] = {}]
     /\ Step(t, "schema", cur[t])
-    /\ UNCHANGED <<ncalls, buf, cdict, mt, sobj, args, sid>>
+    /\ UNCHANGED <<ncalls, buf, cdict, mt, icache, sobj, args, sid>>
 
 DSchema(t) ==                      \* self.validator.get_expanded_schema(type_): unversioned entry
     /\ pc[t] = "schema"
@@ -276,19 +315,23 @@ DSchema(t) ==                      \* self.validator.get_expanded_schema(type_):
            ELSE /\ sobj' = [sobj EXCEPT ![NewS(t)] = {}]
                 /\ exp' = [exp EXCEPT ![v] = @ \cup {[key |-> key, obj |-> NewS(t)]}]
                 /\ Step(t, "format", [cur[t] EXCEPT !.sch = NewS(t)])
-    /\ UNCHANGED <<ncalls, buf, cdict, mt, raw, args, sid>>
+    /\ UNCHANGED <<ncalls, buf, cdict, mt, icache, raw, args, sid>>
 
 DFormat(t) ==
     /\ pc[t] = "format"
     /\ LET c == cur[t]
            h == args[c.doc]
            sep == c.kind = "dumps_sep"
-       IN  /\ args' = IF sep THEN [args EXCEPT ![c.doc].order = "sep"] ELSE args
+           \* list-valued keywords: a new list of quoted items is built (FormatOnCopy) - or the items
+           \* of the caller's list are replaced by their quoted form
+           h2 == IF FormatOnCopy THEN h ELSE [h EXCEPT !.quoted = TRUE]
+       IN  /\ args' = [args EXCEPT ![c.doc] = IF sep THEN [h2 EXCEPT !.order = "sep"] ELSE h2]
            /\ Step(t, "ret", [c EXCEPT !.ret = [k |-> "text", doc |-> c.doc,
                                                 order |-> IF sep THEN "sep" ELSE h.order,
                                                 extra |-> h.extra, lower |-> h.lower, vcom |-> h.vcom,
+                                                quoted |-> h.quoted,
                                                 removed |-> sobj[c.sch]]])
-    /\ UNCHANGED <<ncalls, buf, cdict, mt, raw, exp, sobj, sid>>
+    /\ UNCHANGED <<ncalls, buf, cdict, mt, icache, raw, exp, sobj, sid>>
 
 -----------------------------------------------------------------------------
 (* validate = Validator().validate(d, version=v)                           *)
@@ -299,13 +342,13 @@ VAlloc(t) ==
        ELSE /\ raw' = [raw EXCEPT ![VOf(t)] = {}]
             /\ exp' = [exp EXCEPT ![VOf(t)] = {}]
     /\ Step(t, IF cur[t].ver = 0 THEN "raw" ELSE "xchk", cur[t])
-    /\ UNCHANGED <<ncalls, buf, cdict, mt, sobj, args, sid>>
+    /\ UNCHANGED <<ncalls, buf, cdict, mt, icache, sobj, args, sid>>
 
 VRaw(t) ==                         \* get_schema_validator: raw schema file cache, registry
     /\ pc[t] = "raw"
     /\ raw' = [raw EXCEPT ![VOf(t)] = @ \cup {"map"}]
     /\ Step(t, "lower", cur[t])
-    /\ UNCHANGED <<ncalls, buf, cdict, mt, exp, sobj, args, sid>>
+    /\ UNCHANGED <<ncalls, buf, cdict, mt, icache, exp, sobj, args, sid>>
 
 CacheKey(ver) == <<"map", IF KeyByVersion THEN ver ELSE 1>>
 
@@ -317,7 +360,7 @@ VXchk(t) ==                        \* if cache_schema_name not in self.expanded_
                 /\ UNCHANGED sobj
            ELSE /\ sobj' = [sobj EXCEPT ![NewS(t)] = {}]              \* jsonref.load: a new object
                 /\ Step(t, "xins", [cur[t] EXCEPT !.hit = FALSE, !.sch = NewS(t)])
-    /\ UNCHANGED <<ncalls, buf, cdict, mt, raw, exp, args, sid>>
+    /\ UNCHANGED <<ncalls, buf, cdict, mt, icache, raw, exp, args, sid>>
 
 VXins(t) ==                        \* self.expanded_schemas[cache_schema_name] = jsn_schema
     /\ pc[t] = "xins"
@@ -325,12 +368,12 @@ VXins(t) ==                        \* self.expanded_schemas[cache_schema_name] =
        IN  exp' = IF cur[t].hit THEN exp
                   ELSE [exp EXCEPT ![VOf(t)] = (@ \ Lookup(VOf(t), key)) \cup {[key |-> key, obj |-> cur[t].sch]}]
     /\ Step(t, "pkeys", cur[t])
-    /\ UNCHANGED <<ncalls, buf, cdict, mt, raw, sobj, args, sid>>
+    /\ UNCHANGED <<ncalls, buf, cdict, mt, icache, raw, sobj, args, sid>>
 
 VPkeys(t) ==                       \* keys_copy = list(properties.keys())
     /\ pc[t] = "pkeys"
     /\ Step(t, "prune1", [cur[t] EXCEPT !.keys = Entries \ sobj[cur[t].sch]])
-    /\ UNCHANGED <<ncalls, buf, cdict, mt, raw, exp, sobj, args, sid>>
+    /\ UNCHANGED <<ncalls, buf, cdict, mt, icache, raw, exp, sobj, args, sid>>
 
 \* for key in keys_copy: v = properties[key]; del properties[key] when out of range - in place, on
 \* the cached object.  A key deleted by somebody else since the copy was taken: KeyError.
@@ -343,13 +386,13 @@ VPrune(t, here, e, next) ==
            ELSE /\ sobj' = IF e \in c.keys /\ ~InRange(e, c.ver) THEN [sobj EXCEPT ![c.sch] = @ \cup {e}]
                            ELSE sobj
                 /\ Step(t, next, c)
-    /\ UNCHANGED <<ncalls, buf, cdict, mt, raw, exp, args, sid>>
+    /\ UNCHANGED <<ncalls, buf, cdict, mt, icache, raw, exp, args, sid>>
 
 VLower(t) ==                       \* lowercase_dict = self.convert_lowercase(d): a copy
     /\ pc[t] = "lower"
     /\ args' = IF LowerOnCopy THEN args ELSE [args EXCEPT ![cur[t].doc].lower = TRUE]
     /\ Step(t, "judge", cur[t])
-    /\ UNCHANGED <<ncalls, buf, cdict, mt, raw, exp, sobj, sid>>
+    /\ UNCHANGED <<ncalls, buf, cdict, mt, icache, raw, exp, sobj, sid>>
 
 VJudge(t) ==
     /\ pc[t] = "judge"
@@ -359,7 +402,7 @@ VJudge(t) ==
        IN  /\ args' = IF c.kind = "validate_addc" /\ errs # {} THEN [args EXCEPT ![c.doc].vcom = TRUE]
                       ELSE args
            /\ Step(t, "ret", [c EXCEPT !.ret = [k |-> "msgs", doc |-> c.doc, errs |-> errs]])
-    /\ UNCHANGED <<ncalls, buf, cdict, mt, raw, exp, sobj, sid>>
+    /\ UNCHANGED <<ncalls, buf, cdict, mt, icache, raw, exp, sobj, sid>>
 
 -----------------------------------------------------------------------------
 (* find / findall / findunique / findkey                                   *)
@@ -371,19 +414,19 @@ QRun(t) ==
                       THEN [args EXCEPT ![c.doc].extra = @ \cup {"some"}] ELSE args
            /\ Step(t, "ret", [c EXCEPT !.ret = [k |-> "items", doc |-> c.doc, key |-> c.key,
                                                 kind |-> c.kind]])
-    /\ UNCHANGED <<ncalls, buf, cdict, mt, raw, exp, sobj, sid>>
+    /\ UNCHANGED <<ncalls, buf, cdict, mt, icache, raw, exp, sobj, sid>>
 
 Return(t) ==
     /\ pc[t] = "ret"
     /\ Step(t, "idle", cur[t])
-    /\ UNCHANGED <<ncalls, buf, cdict, mt, raw, exp, sobj, args, sid>>
+    /\ UNCHANGED <<ncalls, buf, cdict, mt, icache, raw, exp, sobj, args, sid>>
 
 -----------------------------------------------------------------------------
 
 ThreadStep(t) ==
     /\ CanRun(t)
     /\ \/ Start(t)
-       \/ LAlloc(t) \/ LClear(t) \/ (\E k \in 1..4 : LLex(t, k)) \/ LCdict(t) \/ LAssign(t)
+       \/ LAlloc(t) \/ LIncl(t) \/ LClear(t) \/ (\E k \in 1..4 : LLex(t, k)) \/ LCdict(t) \/ LAssign(t)
        \/ LTnew(t) \/ LTrun(t)
        \/ DAlloc(t) \/ DSchema(t) \/ DFormat(t)
        \/ VAlloc(t) \/ VRaw(t) \/ VXchk(t) \/ VXins(t)
@@ -400,6 +443,7 @@ Init ==
     /\ buf = [p \in PObjs |-> <<>>]
     /\ cdict = [p \in PObjs |-> {}]
     /\ mt = [p \in PObjs |-> NoT]
+    /\ icache = [p \in PObjs |-> {}]
     /\ raw = [v \in VObjs |-> {}]
     /\ exp = [v \in VObjs |-> {}]
     /\ sobj = [s \in SObjs |-> {}]
